@@ -144,6 +144,9 @@ def pairs(tier):
         ("remove_hash-vs-remove_hash", [("remove_hash", "x"), ("remove_hash", "x")]),
         ("remove_hash-vs-read_hash", [("remove_hash", "x"), ("read_hash", "x")]),
         ("remove_hash-vs-exists", [("remove_hash", "x"), ("exists", "x")]),
+        # a key nobody has written yet: its bucket file (and bucket directory) do not exist even on a warm cache
+        ("writers-fresh-key", [("write", "fresh-key-z", "x"), ("write", "fresh-key-z", "y")]),
+        ("write-vs-remove-fresh-key", [("write", "fresh-key-z", "y"), ("remove", "fresh-key-z")]),
     ]
     if tier == "quick":
         return cur
@@ -197,7 +200,7 @@ def scenarios(tier):
     # cache, and on a cold cache where the number of traces stays small (the rest in the thorough tier)
     # (on a cold cache every mkdir succeeds and is a write to an ancestor of everything below it: two writers then have
     # > 10^5 classes, so the writer-writer pairs stay preemption-bounded there)
-    writer_pairs = {"writers-same-key", "writers-same-key-same-content", "writers-different-keys-identical-content", "writers-sibling-keys", "writers-sibling-content"}
+    writer_pairs = {"writers-fresh-key", "write-vs-remove-fresh-key", "writers-same-key", "writers-same-key-same-content", "writers-different-keys-identical-content", "writers-sibling-keys", "writers-sibling-content"}
     mid_cold = {"remove-vs-remove", "write-vs-remove", "write_hash-vs-write_hash"}   # 10^3 - 10^4 classes: thorough tier
     for name, ops in pairs("quick"):
         add(name, ops, "warm", "sync", None, por=True)
@@ -215,6 +218,11 @@ def scenarios(tier):
         add("writers-same-key", pairs("quick")[0][1], "warm", "astd", 1)
         add("writers-same-key", pairs("quick")[0][1], "warm", "astd", None, por=True)
         add("writers-same-key", pairs("quick")[0][1], "warm", "tok", None, por=True)
+        # the async writers on buckets that do not exist yet (fresh key on a warm cache: unbounded; cold cache: one preemption)
+        for fl_ in ("astd", "tok"):
+            add("writers-fresh-key", byname_q["writers-fresh-key"], "warm", fl_, None, por=True)
+            add("write-vs-remove-fresh-key", byname_q["write-vs-remove-fresh-key"], "warm", fl_, None, por=True)
+            add("writers-same-key", pairs("quick")[0][1], "cold", fl_, 1)
     else:
         cur_names = {n_ for n_, _ in pairs("quick")}
         for name, ops in pairs("thorough"):
@@ -320,7 +328,7 @@ def worker(ctx, job):
             V.violation(res, "sched:%s/%s:actor-%s-%s" % (sc["name"], sc["flavour"], sc["ops"][i][0], classify(r)), "actor %d did not return a value: %r" % (i, r), replay)
     # serialisability
     a, b, c = tables.key_family()
-    keys_ = [a, b, c]
+    keys_ = [a, b, c, "fresh-key-z"]
     addrs = [sri_of(v) for v in all_vals()]
     window = (t0, t1)
     order_ran = serial_order(rep, n)
